@@ -8,5 +8,5 @@ import (
 
 func TestReplay(t *testing.T) {
 	Setup()
-	vrt.ReplayMain(map[string]func(){"Harness_tail": Harness_tail, "Harness_tail_session": Harness_tail_session})
+	vrt.ReplayMain(map[string]func(){"Harness_tail": Harness_tail, "Harness_tail_session": Harness_tail_session, "Harness_tail_heads": Harness_tail_heads})
 }
